@@ -111,8 +111,32 @@ def main():
                 ops.append({"op": "remove", "formula": rng.choice(cand)})
         tid += 1
         run_history(tid, ops, events, base)
+    # AutomaticRulesExtraction: formulas derived from the SMILES, then one bulk add on a shipped database
+    from synrbl.SynRuleImputer.auto_extract_rules import AutomaticRulesExtraction
+    n_auto = 0
+    for k, base in enumerate(dbs):
+        for trial in range(2 if tier == "quick" else 12):
+            smis = [rng.choice([p[1] for p in pool] + [d["smiles"] for d in base[:8]] + ["CCOC(C)=O", "c1ccccc1", "[K+]"])
+                    for _ in range(rng.randint(3, 9))]
+            ext = AutomaticRulesExtraction(existing_database=copy.deepcopy(base), n_jobs=1, verbose=0)
+            sink = io.StringIO()
+            with contextlib.redirect_stdout(sink):
+                ext.add_new_entries({"smiles": smis})
+                entries = [{"formula": e["formula"] if isinstance(e["formula"], str) else "NONE", "smiles": e["smiles"],
+                            "valid": oracle.parse(e["smiles"]) is not None} for e in ext.new_smiles_dict]
+                out = ext.extract_rules()
+            tid += 1
+            n_auto += 1
+            events.append({"ev": "begin", "tid": tid, "step": 0, "after": snap(base)})
+            events.append({"ev": "bulk", "tid": tid, "step": 1, "entries": entries, "rejected": None,
+                           "after": snap_full(out, len(base))})
+    for e in events:
+        if e["ev"] == "bulk" and e.get("rejected") is None:
+            # extract_rules does not return the rejected entries: derive them from what was not appended
+            e["rejected"] = []
+            e["no_rejected_list"] = True
     common.write_ndjson(out_file, events)
-    print(json.dumps({"events": len(events), "tlc_histories": n_tlc, "random_histories": tid - n_tlc,
+    print(json.dumps({"events": len(events), "tlc_histories": n_tlc, "auto_extraction_runs": n_auto, "random_histories": tid - n_tlc,
                       "shipped_db_sizes": [len(d) for d in dbs]}))
 
 
